@@ -46,6 +46,8 @@ TRUSTED = vlib.TRUSTED_COMMON + [
     "float()) is not modelled; assumed law: parse(print(x)) is within 1e-15 relative of x. In the model a float is its token. "
     "Observed on every explored value: exact value of the printed token vs exact value of the f64 (Lean, rationals), and x vs "
     "from_str(to_string(x)) (Rust)",
+    "P-finite: premise of the exploration: every float of a value is finite. serde_json writes NaN / +-inf as `null`, which the derived "
+    "Deserialize refuses (`invalid type: null, expected f64`); cells with non-finite numbers are not generated",
     "the lexical layer of the model (JSON text <-> tree, Moyo/Model/JsonText.lean) is executed, not proved: print(parse s) = s "
     "is checked on every explored document",
     "serde / serde_derive / serde_json / nalgebra's Serialize impl / pythonize / pyo3 are not modelled: the schema model says what "
@@ -300,7 +302,7 @@ def run(tier, seed):
                 "checker_cmd": "python3 tools/translate_c19.py && cd lean && lake build Moyo.Props.C19 moyo_model && #print axioms on every "
                                "theorem (vlib.axiom_audit)",
                 "trusted_base": TRUSTED})
-    run.assumptions = [t for t in TRUSTED if t.startswith("A-")]
+    run.assumptions = [t for t in TRUSTED if t.startswith(("A-", "P-"))]
     broken = []          # obligations / correspondences that no longer check (strings)
 
     # ---- builds (moyopy in the background: separate target directory)
@@ -471,10 +473,21 @@ def replay(path):
     rc = 0
     lines = [l for l in r.stdout.splitlines() if " ||| " in l]
     if not lines:
-        print("no `spec:` line in the replay file (nothing to re-run)")
-        txt = open(path).read()
-        print(txt[:3000])
-        return 1 if "no longer check" in txt else 0
+        # a replay without an input names obligations that no longer check: re-run them
+        print(open(path).read()[:3000])
+        print("--- re-running the obligations on the current tree")
+        print("translator:", "ok" if tr_ok else "REFUSES the sources: " + tr_out)
+        ob = vlib.proof_obligations(PROPS)
+        print(f"theorems of Moyo/Props/C19.lean: {ob['discharged']} of {ob['obligations']} discharged")
+        for f in ob["failures"]:
+            print("  " + f)
+        print("moyo_model build:", "ok" if okm else "FAILED")
+        print("moyopy build/import:", "ok" if py_ok else "FAILED: " + py_err[:1500])
+        if not tr_ok or ob["failures"] or not okm or not py_ok:
+            print(f"VIOLATION property=C19 replay={path} no-failing-input-found")
+            return 1
+        print("every obligation checks on the current tree")
+        return 0
     specs = [json.loads(l[len("spec: "):]) for l in open(path) if l.startswith("spec: ")]
     for k, line in enumerate(lines):
         req, rust = line.split(" ||| ", 1)
